@@ -258,7 +258,50 @@ def observer_completeness(ctx, lc, cls, rule="R12.a"):
                         and isinstance(st.targets[0].value, ast.Name) and st.targets[0].value.id == "self" and st.targets[0].attr == w.attr \
                         and ast.unparse(st.value) != ast.unparse(getattr(w.event.node, "value", st.value)):
                     return True
+                # ... or an unconditional call on the same object (`super().__init__(...)` running the class's own
+                # `initialize_features`) whose steps, each an unconditional statement of its caller, rebind it
+                if isinstance(st, ast.Expr) and isinstance(st.value, ast.Call) and isinstance(st.value.func, ast.Attribute):
+                    rv = st.value.func.value
+                    on_self = (isinstance(rv, ast.Name) and rv.id == "self") or (
+                        isinstance(rv, ast.Call) and isinstance(rv.func, ast.Name) and rv.func.id == "super")
+                    if on_self and _rebinds_unconditionally(st.value.func.attr, isinstance(rv, ast.Call), w, 0):
+                        return True
             return False
+
+        def _top_calls(f):
+            for st in getattr(f.node, "body", []):
+                if isinstance(st, ast.Expr) and isinstance(st.value, ast.Call) and isinstance(st.value.func, ast.Attribute):
+                    rv = st.value.func.value
+                    if isinstance(rv, ast.Name) and f.params and rv.id == f.params[0]:
+                        yield st.value.func.attr, False
+                    elif isinstance(rv, ast.Call) and isinstance(rv.func, ast.Name) and rv.func.id == "super":
+                        yield st.value.func.attr, True
+
+        def _rebinds_unconditionally(name, via_super, w, depth, _from=None):
+            if depth > 3:
+                return False
+            start = cls if not via_super else None
+            if via_super:
+                owner = (_from or init).cls
+                for q in (owner.mro[1:] if owner is not None else []):
+                    k = repo.classes.get(q) if hasattr(repo, "classes") else None
+                    if k is not None and name in k.methods:
+                        start = k
+                        break
+                if start is None:
+                    return False
+                f = start.methods[name]
+            else:
+                f = repo.method(cls, name)
+            if f is None or isinstance(f.node, ast.Lambda) or not f.params:
+                return False
+            me = f.params[0]
+            for st in f.node.body:
+                if isinstance(st, ast.Assign) and len(st.targets) == 1 and isinstance(st.targets[0], ast.Attribute) \
+                        and isinstance(st.targets[0].value, ast.Name) and st.targets[0].value.id == me and st.targets[0].attr == w.attr:
+                    return not any(
+                        o[0] == "attr" and o[1] == me and o[2] and o[2][0] in pristine for o in ctx.flow.origins(f, st.value, cls))
+            return any(_rebinds_unconditionally(n2, s2, w, depth + 1, f) for n2, s2 in _top_calls(f))
 
         for w in lc.attr_writes(init, cls):
             if w.kind != "rebind" or w.attr not in inplace or w.attr in pristine:
